@@ -368,6 +368,13 @@ func (c *Ctx) addObl(st *State, kind, name, goal, desc string) {
 	if goal == "true" {
 		return
 	}
+	if c.unit.Contract != nil && c.unit.Contract.Flags["no-safety"] {
+		switch kind {
+		case "nil", "nilcall", "bounds", "mapwrite", "make", "div", "conv", "typeassert", "panic":
+			c.note("flag no-safety: run-time safety obligations of this unit are not generated (only its contract clauses)")
+			return
+		}
+	}
 	full := c.funcKey + "." + c.prefix + name
 	o := &Obligation{Name: full, Kind: kind, Func: c.funcKey, PC: append([]string(nil), st.pc...), Goal: goal, Desc: desc, PathNo: c.paths}
 	if c.unit.Contract != nil {
